@@ -871,6 +871,7 @@ void generate(const char* mode)
             gsim::Op op;
             op.code = p[gsim::gen_int((int)p.size())];
             op.a = gsim::gen_int(4) == 0 ? 1 + gsim::gen_int(3) : 0;  // hold
+            if (gsim::gen_int(12) == 0) op.a |= 8;  // run the op during stack unwinding
             op.b = gsim::gen_int(5);  // life cycle / cas expected
             op.c = gsim::gen_int(3);  // duration index
             if (op.code == OP_STORE || op.code == OP_ASSIGN || op.code == OP_EXCHANGE ||
@@ -890,7 +891,13 @@ struct Body {
     void operator()(int t)
     {
         int n = gsim::prog_len(t);
-        for (int i = 0; i < n; i++) Exec<W>::run_op(*w, gsim::prog_op(t, i), t, i);
+        for (int i = 0; i < n; i++) {
+            gsim::Op op = gsim::prog_op(t, i);
+            bool unwind = (op.a & 8) != 0 && !G->oracle_throw;
+            op.a &= 7;
+            if (unwind) wl::run_in_unwind([&] { Exec<W>::run_op(*w, op, t, i); });
+            else Exec<W>::run_op(*w, op, t, i);
+        }
     }
 };
 
